@@ -138,6 +138,38 @@ def run (ctx):
   else:
     ctx.undecided('R-AGREE', add, "priority ordering idiom", "no sort in addListener (ordered-insert idiom not recognised)", add, 'D2')
 
+  # the memory "this event type has prioritised handlers" must not be lost: when some method takes an event type out of the set
+  # (a lazy "needs sorting" flag cleared after a sort), every later subscription has to put it back - otherwise a default-priority
+  # handler subscribed after a delivery is appended behind a lower-priority one and nothing sorts the list again
+  PRA = '_eventMixin_prioritized'
+  forget = []
+  for f in em.methods.values():
+    if f.name in ('_eventMixin_init', '__init__'): continue
+    for c in calls_in(f.node, nested=True):
+      if isinstance(c.func, ast.Attribute) and c.func.attr in ('discard', 'remove', 'pop', 'difference_update') and q.mentions_attr(c.func.value, PRA): forget.append((f, c))
+    for t, v, s_, k in q.stores_in(f.node):
+      if k == 'augassign' and q.mentions_attr(t, PRA) and isinstance(getattr(s_, 'op', None), (ast.Sub, ast.BitAnd)): forget.append((f, s_))
+  cond_sorts = [x for x in ast.walk(em.node) if isinstance(x, ast.Compare) and len(x.ops) == 1 and isinstance(x.ops[0], (ast.In, ast.NotIn)) and PRA in norm(x.comparators[0])]
+  for f, c in forget:
+    if f.name == 'clearHandlers': continue          # forgets together with the handlers themselves
+    # does a default-priority subscription re-establish the memory?
+    newprio_ = lambda e: isinstance(e, ast.Compare) and norm(e.left) == 'priority' and 'DEFAULT_PRIORITY' in norm(e.comparators[0])
+    ex = {'self._eventMixin_events is not True': False, 'self._eventMixin_events is True': True, 'weak': False, 'byName': False,
+          (add.params[1] if len(add.params) > 1 else 'eventType'): 'T', 'self.' + PRA: set()}
+    outs = []
+    try:
+      for p_, e_ in q.paths_under(repo, mod, ag, q.Env(ex, [(newprio_, False)]), ag.entry, [ag.exit], em, limit=80):
+        if not any(x in p_ for x in [q.enclosing_stmt_node(ag, a_) for a_ in adds] if x is not None): continue
+        v_ = e_.exact.get('self.' + PRA)
+        outs.append(isinstance(v_, set) and 'T' in v_)
+    except Exception: outs = None
+    if not cond_sorts: continue
+    good = None if not outs else all(outs)
+    ctx.ob('R-AGREE', f, "once an event type has prioritised handlers that is not forgotten", good,
+           "every subscription marks the event type again" if good else
+           ("`%s` takes the event type out of the set that later subscriptions consult, and a default-priority subscription does not put it back: a handler "
+            "subscribed after that point is appended behind lower-priority ones and delivered after them" % norm(c)[:70]) if good is False else "subscription paths could not be evaluated", (mod, c), 'D2')
+
   # ---- D3 return-value protocol -----------------------------------------------------
   body = g.loop_body_nodes(head)
   calls_h = [n for n in body if n.ast is not None and any(_is_handler_call(c, h_v) for c in q.node_calls(n))]
